@@ -234,7 +234,9 @@ fn segment_to_segment(min: f64, max: f64, order: usize) -> impl Fn(f64) -> u64 {
 
     let width = max - min;
     let n = (1_u64 << order) as f64;
-    let mut f = n / width;
+    // `n / width` overflows for subnormal widths; an infinite factor would
+    // never be decreased by the loop below.
+    let mut f = (n / width).min(f64::MAX);
 
     // Map max to (2**order-1) and avoid u64 overflow.
     while n <= width * f {
